@@ -351,7 +351,13 @@ def run_shard(shard, ctx):
         for i in range(shard["n"]):
             if ctx.out_of_time():
                 break
-            dl = rng.choice([0, 1, 2, 3, 4, 5, 7, 8, 15, 16, 17, 33, 64, 70]) if rng.random() < 0.85 else rng.randrange(0, 5000)
+            r0 = rng.random()
+            if r0 < 0.8:
+                dl = rng.choice([0, 1, 2, 3, 4, 5, 7, 8, 15, 16, 17, 33, 64, 70])
+            elif r0 < 0.9:
+                dl = rng.randrange(0, 5000)
+            else:  # block-size boundaries of any chunked implementation
+                dl = rng.choice([4095, 4096, 4097, 6144, 8190, 8191, 8192, 8193, 12285, 12288, 16384, 65535, 65536]) + rng.choice([0, 0, 0, -1, 1])
             kl = rng.choice([0, 1, 2, 3, 4, 5, 8, 16, 70]) if rng.random() < 0.8 else rng.randrange(0, 71)
             data = _rbytes(rng, dl)
             r = rng.random()
